@@ -358,7 +358,7 @@ func run(c *Case) (fail *report.Failure, out *outcome) {
 		cond = out.target
 		out.nontrivial = out.first == out.target
 	} else {
-		out.nontrivial = forks >= 2 || bv.ref.Fin.Epoch > 0
+		out.nontrivial = (forks >= 2 || bv.ref.Fin.Epoch > 0) && out.class == gossipmodel.MustAccept
 	}
 	out.key = fmt.Sprintf("%s|%s|%s|%s", topic, refspec.ForkNames[out.fork], cond, kind)
 	return nil, out
